@@ -409,7 +409,24 @@ class Interp:
                     cm.next()
                     raise
                 cm.next()
-            elif isinstance(cm, (Sym, AObj)):
+            elif isinstance(cm, AObj):
+                # a repository class with __enter__ / __exit__
+                val = self.call_object_method(cm, '__enter__', [], s)
+                if item.optional_vars is not None:
+                    self.assign(item.optional_vars, val, env)
+                try:
+                    self.exec_block(s.body, env)
+                except RaiseSig as sig:
+                    swallow = self.call_object_method(cm, '__exit__', [('class', sig.cls), Sym('exc', sig.cls, sig.args_), Sym('traceback')], s)
+                    if not self.truth(swallow, s):
+                        raise
+                except (ReturnSig, BreakSig, ContinueSig):
+                    self.call_object_method(cm, '__exit__', [None, None, None], s)
+                    raise
+                else:
+                    self.call_object_method(cm, '__exit__', [None, None, None], s)
+            elif isinstance(cm, Sym) and cm.kind in ('method', 'hostcall', 'pkgdir'):
+                # a host object (an open file ...): it is its own context value
                 if item.optional_vars is not None:
                     self.assign(item.optional_vars, cm, env)
                 self.exec_block(s.body, env)
@@ -1011,6 +1028,9 @@ class Interp:
                 continue
             kwargs[kw.arg] = self.eval(kw.value, env)
         if kwargs and isinstance(fn, tuple) and fn and fn[0] == 'class':
+            obj = self.instantiate(fn[1], args, kwargs, e)
+            if obj is not None:
+                return obj
             return Sym('instance', fn[1], tuple(args), tuple(sorted(kwargs.items(), key=lambda kv: kv[0])))
         if kwargs and isinstance(fn, tuple) and fn and fn[0] == 'hostattr':
             self._kwargs = kwargs
@@ -1035,6 +1055,9 @@ class Interp:
                 return Sym('parsed', args[0])
             return self.call_function(fn.node, args, e, kwargs)
         if isinstance(fn, tuple) and fn and fn[0] == 'class':
+            obj = self.instantiate(fn[1], args, kwargs, e)
+            if obj is not None:
+                return obj
             return Sym('instance', fn[1], tuple(args))
         if isinstance(fn, tuple) and fn and fn[0] in ('closure', 'partial', 'bound', 'closure-def'):
             return self.apply(fn, args, e)
@@ -1051,6 +1074,56 @@ class Interp:
             if other is not None and fn[2] in other.funcs:
                 return self.sub_interp(other).call_function(other.funcs[fn[2]], args, e, kwargs)
         self.bad(e, 'call outside the interpreted subset')
+
+    def class_home(self, cname):
+        """(module, ClassDef) of a repository class that is a plain class: no host base class, not an exception"""
+        mods = [self.mod]
+        repo = getattr(self, 'repo', None)
+        if repo is not None:
+            for nm in ('value', 'parser', 'library', 'runtime', 'model', 'data', 'options', 'bare'):
+                try:
+                    m = repo.module(nm)
+                except Exception:
+                    continue
+                if m is not self.mod:
+                    mods.append(m)
+        for m in mods:
+            node = getattr(m, 'classes', {}).get(cname)
+            if node is not None:
+                plain = all(isinstance(b, ast.Name) and b.id == 'object' for b in node.bases) and not cname.endswith(('Error', 'Exception'))
+                return (m, node) if plain else None
+        return None
+
+    def instantiate(self, cname, args, kwargs, at):
+        """an instance of a plain repository class: a heap object whose __init__ is evaluated; None for classes that are modelled otherwise (exceptions, host subclasses)"""
+        home = self.class_home(cname)
+        if home is None:
+            return None
+        m, node = home
+        obj = AObj(cname)
+        init = m.funcs.get(f'{cname}.__init__')
+        if init is not None:
+            it = self if m is self.mod else self.sub_interp(m)
+            prev = getattr(it, 'current_self', None)
+            it.current_self = obj
+            try:
+                it.call_function(init, [obj] + list(args), at, kwargs or None)
+            finally:
+                it.current_self = prev
+        elif args or kwargs:
+            raise RaiseSig('TypeError', (f'{cname}() takes no arguments',), at)
+        return obj
+
+    def call_object_method(self, obj, m, args, at):
+        home = self.class_home(obj.cls)
+        if home is None:
+            self.bad(at, f'method {m} of an instance of {obj.cls}')
+        mod, node = home
+        f = mod.funcs.get(f'{obj.cls}.{m}')
+        if f is None:
+            raise RaiseSig('AttributeError', (m,), at)
+        it = self if mod is self.mod else self.sub_interp(mod)
+        return it.call_function(f, [obj] + list(args), at)
 
     def sub_interp(self, other):
         """interpreter for another repository module sharing oracles, hooks and scenario state with this one"""
@@ -1339,6 +1412,8 @@ class Interp:
                 base[1].attrs['args'] = tuple(args)
                 return None
             self.bad(e, f'super().{m}()')
+        if isinstance(base, AObj):
+            return self.call_object_method(base, m, args, e)
         if base == ('builtin', 'dict') and m == 'fromkeys' and 1 <= len(args) <= 2:
             out = ADict({})
             for k in self.iterate(args[0], e):
